@@ -396,4 +396,63 @@ def load (W : World) (ctx : Ctx) (s : SVal) : Except Err Val :=
   | .error e => .error e
   | .ok L => loadWith W L s
 
+/-! ## 6. Concrete loaders (used by the driver and by the non-vacuity examples)
+
+`DefaultObjectLoader` names a module-level object `module:name` and resolves exactly the identifiers of that form whose
+module imports and has the attribute; `identify_object` checks that the identifier loads.  The harness's custom loaders
+use the scheme `<prefix>!module!name` and raise `ValueError` on anything else.  Both are modelled by a finite registry
+of the module-level objects that exist. -/
+
+structure Naming where
+  modOf : PyObj → String
+  nameOf : PyObj → String
+
+def Naming.default (N : Naming) (x : PyObj) : Ident := N.modOf x ++ ":" ++ N.nameOf x
+def Naming.custom (N : Naming) (pre : String) (x : PyObj) : Ident := pre ++ "!" ++ N.modOf x ++ "!" ++ N.nameOf x
+
+/-- a loader of class `cls` that names the objects of `reg` by `ident` and resolves exactly those names -/
+def regLoader (cls : Nat) (ident : PyObj → Ident) (reg : List PyObj) : Loader where
+  cls := cls
+  identify x := if reg.contains x then .ok (ident x) else .error .valueError
+  load s := reg.find? (fun x => ident x == s)
+
+/-! ## 7. Canonical rendering (the observation lines of the driver) -/
+
+def insertSorted (x : String × String) : List (String × String) → List (String × String)
+  | [] => [x]
+  | y :: r => if x.1 < y.1 then x :: y :: r else y :: insertSorted x r
+
+def sortByKey (l : List (String × String)) : List (String × String) := l.foldr insertSorted []
+
+def renderKV (sep : String) (l : List (String × String)) : String :=
+  ",".intercalate ((sortByKey l).map fun kv => kv.1 ++ sep ++ kv.2)
+
+mutual
+def SVal.render : SVal → String
+  | .plain p => p
+  | .mname n => jsonStr n
+  | .exc e => "!" ++ e
+  | .state cls rec types entries =>
+      "{c=" ++ cls.getD "-" ++ ";l=" ++ rec.getD "-" ++ ";t=" ++ renderKV ":" (types.map fun (k, t) => (k, t.str))
+        ++ ";e=" ++ renderKV "=" (SVal.renderEntries entries) ++ "}"
+def SVal.renderEntries : List (Name × SVal) → List (String × String)
+  | [] => []
+  | (k, v) :: r => (k, SVal.render v) :: SVal.renderEntries r
+end
+
+mutual
+def Val.render : Val → String
+  | .plain p => p
+  | .method own n => "meth:" ++ (if own then "1" else "0") ++ ":" ++ n
+  | .obj c attrs => "K" ++ toString c ++ "{" ++ renderKV "=" (Val.renderAttrs attrs) ++ "}"
+  | .futPending => "F.pending"
+  | .futCancelled => "F.cancelled"
+  | .futExc e => "F.exc:" ++ e
+  | .futResult v => "F.result(" ++ Val.render v ++ ")"
+  | .raw s => "raw" ++ s.render
+def Val.renderAttrs : List (Name × Val) → List (String × String)
+  | [] => []
+  | (k, v) :: r => (k, Val.render v) :: Val.renderAttrs r
+end
+
 end Sav
